@@ -29,6 +29,8 @@ struct Task {
     timed: bool,
     /// the last timed block ended by timeout rather than by a wake-up
     timed_out: bool,
+    /// simulated time at which the timed block ends
+    deadline: u64,
 }
 
 pub struct Inner {
@@ -50,6 +52,8 @@ pub struct Inner {
     pct_low: u64,
     site_counts: BTreeMap<(String, String), u32>,
     pub faults_fired: u32,
+    /// simulated clock (ns): advances only when no task can run, to the earliest deadline
+    now_ns: u64,
 }
 
 static RT: StdMutex<Inner> = StdMutex::new(Inner {
@@ -71,6 +75,7 @@ static RT: StdMutex<Inner> = StdMutex::new(Inner {
     pct_low: 0,
     site_counts: BTreeMap::new(),
     faults_fired: 0,
+    now_ns: 0,
 });
 
 thread_local! { static TID: Cell<Option<usize>> = const { Cell::new(None) }; }
@@ -133,6 +138,7 @@ pub fn init() {
         prio,
         timed: false,
         timed_out: false,
+        deadline: 0,
     });
     g.current = 0;
     let _ = writeln!(
@@ -183,6 +189,21 @@ pub fn new_atomic_id() -> u32 {
     g.next_atomic
 }
 
+/// Simulated time in nanoseconds.
+pub fn now_ns() -> u64 {
+    lock().now_ns
+}
+
+/// Sleep in simulated time: the task is set aside until the clock reaches its deadline (which
+/// happens only when nothing else can run).
+pub fn sleep_ns(dur_ns: u64) {
+    if me().is_none() || !enabled() {
+        return;
+    }
+    let r = new_resource();
+    block_timed(r, "thread.sleep", dur_ns);
+}
+
 pub fn dir_key() -> u64 {
     lock().plan.as_ref().map(|p| p.dir_key).unwrap_or(0)
 }
@@ -231,7 +252,7 @@ fn dump(g: &mut Inner) {
         let line = format!("T\t{}\t{}\t{}\t{}\n", i, t.name, st, t.pending);
         g.trace.push_str(&line);
     }
-    let line = format!("S\tsteps={}\tfaults_fired={}\n", g.step, g.faults_fired);
+    let line = format!("S\tsteps={}\tfaults_fired={}\tsim_ns={}\n", g.step, g.faults_fired, g.now_ns);
     g.trace.push_str(&line);
     if let Some(plan) = &g.plan {
         if !plan.trace_path.is_empty() {
@@ -362,11 +383,20 @@ fn switch(res: &str, label: &str) {
     if runnable.is_empty() {
         // nothing can run: simulated time jumps to the earliest pending timeout (there is no
         // clock in the system, so "earliest" is the lowest task id — a fixed, replayable rule)
-        if let Some(i) = g.tasks.iter().position(|t| matches!(t.status, Status::Blocked(_)) && t.timed) {
+        let next = g
+            .tasks
+            .iter()
+            .enumerate()
+            .filter(|(_, t)| matches!(t.status, Status::Blocked(_)) && t.timed)
+            .min_by_key(|(i, t)| (t.deadline, *i))
+            .map(|(i, _)| i);
+        if let Some(i) = next {
+            g.now_ns = g.now_ns.max(g.tasks[i].deadline);
             g.tasks[i].status = Status::Runnable;
             g.tasks[i].timed = false;
             g.tasks[i].timed_out = true;
-            let _ = writeln!(g.trace, "N\t{}\ttimeout fires for task {}", me, i);
+            let now = g.now_ns;
+            let _ = writeln!(g.trace, "N\t{}\ttimeout fires for task {} at t={}ns", me, i, now);
             runnable.push(i);
         }
     }
@@ -455,7 +485,7 @@ pub fn wake_all(res: u64) {
 
 /// Block with a timeout.  Returns true if the wait ended by timeout (the scheduler fires a
 /// timeout only when no task can run — time is what passes when everyone waits).
-pub fn block_timed(res: u64, label: &str) -> bool {
+pub fn block_timed(res: u64, label: &str, dur_ns: u64) -> bool {
     let Some(me) = me() else { return true };
     {
         let mut g = lock();
@@ -465,6 +495,7 @@ pub fn block_timed(res: u64, label: &str) -> bool {
         g.tasks[me].status = Status::Blocked(res);
         g.tasks[me].timed = true;
         g.tasks[me].timed_out = false;
+        g.tasks[me].deadline = g.now_ns.saturating_add(dur_ns);
     }
     switch("", label);
     let mut g = lock();
@@ -533,6 +564,7 @@ pub fn register_task(name: Option<String>) -> usize {
         prio,
         timed: false,
         timed_out: false,
+        deadline: 0,
     });
     tid
 }
@@ -587,6 +619,7 @@ pub fn spawn<F: FnOnce() + Send + 'static>(name: Option<String>, stack: Option<u
             prio,
             timed: false,
             timed_out: false,
+            deadline: 0,
         });
         tid
     };
